@@ -185,6 +185,16 @@ def crafted_instances():
         chn = [motor, worm, dict(first), worm_b, dict(second, teeth=30), out_gear]
         out.append((nm, {'elems': chn, 'load': ld(c0=50), 'ctrls': [], 'stops': [], 'ops': sched(6)}))
         out.append((nm + '_pwm0', {'elems': chn, 'load': ld(c0=F(-1, 2)), 'ctrls': [[const(F(3, 200), 1, 0)]], 'stops': [], 'ops': sched(8, spd0=F(1, 100), ctrl=0)}))
+    # two resets in a row, and a reset before anything was simulated (nothing to restore: must raise, not corrupt)
+    out.append(('double_reset', {'elems': gearpair, 'load': ld(c0=F(1, 1000)), 'ctrls': [], 'stops': [],
+                                 'ops': sched(4, more=[{'op': 'reset'}, {'op': 'reset'}])}))
+    out.append(('reset_then_rerun_twice', {'elems': sl, 'load': ld(c0=5), 'ctrls': [], 'stops': [],
+                                           'ops': sched(4, more=[{'op': 'reset'}, {'op': 'set_initial', 'pos': F(0), 'spd': F(0)},
+                                                                 {'op': 'run', 'sid': 1, 'dt': dt, 'T': dt * 3, 'dt_unit': 'sec', 'T_unit': 'sec'}, {'op': 'reset'},
+                                                                 {'op': 'set_initial', 'pos': F(0), 'spd': F(0)},
+                                                                 {'op': 'run', 'sid': 1, 'dt': dt, 'T': dt * 3, 'dt_unit': 'ms', 'T_unit': 'ms'}])}))
+    out.append(('reset_before_run', {'elems': gearpair, 'load': ld(c0=F(1, 1000)), 'ctrls': [], 'stops': [],
+                                     'ops': [{'op': 'set_initial', 'pos': F(0), 'spd': F(0)}, {'op': 'new_solver', 'sid': 1}, {'op': 'reset'}]}))
     # numpy scalars in the load function and in the stop threshold (the documentation's examples write loads with np.sin / np.exp)
     for nm, inst0 in list(out):
         if nm.startswith('stop_eq_') or nm in ('hold_then_release', 'engage_pwm_zero'):
